@@ -71,10 +71,13 @@ func LoadProgram(repo string, overlay map[string][]byte) (*Program, *ssa.Package
 }
 
 // overlayFrom maps every *.go file in dir to <repo>/zz_vp_<name>.
-func overlayFrom(repo string, dirs ...string) (map[string][]byte, map[string]string, error) {
+// overlayFrom reads the harness sources. With a snapshot directory the files are copied there first and
+// the copies are what the native replay compiles, so that a harness file edited while a check runs
+// cannot make the symbolic run and its replay disagree.
+func overlayFrom(repo, snapshot string, dirs ...string) (map[string][]byte, map[string]string, error) {
 	ov := map[string][]byte{}
 	real := map[string]string{}
-	for _, dir := range dirs {
+	for di, dir := range dirs {
 		ents, err := os.ReadDir(dir)
 		if err != nil {
 			return nil, nil, err
@@ -90,6 +93,13 @@ func overlayFrom(repo string, dirs ...string) (map[string][]byte, map[string]str
 			target := filepath.Join(repo, "zz_vp_"+e.Name())
 			ov[target] = data
 			real[target] = filepath.Join(dir, e.Name())
+			if snapshot != "" {
+				cp := filepath.Join(snapshot, fmt.Sprintf("h%d_%s", di, e.Name()))
+				if err := os.WriteFile(cp, data, 0o644); err != nil {
+					return nil, nil, err
+				}
+				real[target] = cp
+			}
 		}
 	}
 	return ov, real, nil
